@@ -74,6 +74,7 @@ fn main() {
                 // batch k1 v1 k2 ! ...   ('!' as value = delete)
                 "batch" => dbops.push(api::DbOp::Batch(t[2..].chunks(2).map(|c| (unhex(c[0]), if c[1] == "!" { None } else { Some(unhex(c[1])) })).collect())),
                 "reopen" => dbops.push(api::DbOp::Reopen(t[2] == "reuse")),
+                "plant" => dbops.push(api::DbOp::Plant),
                 _ => panic!("bad db op"),
             },
             "entry" => entries.push((unhex(t[1]), t[2].parse().unwrap(), t[3].parse().unwrap(), unhex(t[4]))),
